@@ -128,7 +128,7 @@ def gen_ls_case(r, maxsteps, converge=False):
     else:
         ops.append(f"opt {kind} " + nums([ls]))
     ops.append("init " + nums(gen_x0(r, n, box, small=(okind[0] == "rosen"))))
-    nsteps = max(maxsteps, 60) if converge else r.range(1, maxsteps)
+    nsteps = maxsteps if converge else r.range(1, maxsteps)
     nsave = 0 if converge else r.choice([0, 1, 1, 2, 3])
     saves = sorted(r.range(0, nsteps) for _ in range(nsave))
     for i in range(nsteps + 1):
@@ -314,7 +314,8 @@ def correspond(ctx, name, cases, hcmd, dcmd, max_report=6, keep_prefix=0, run_ca
             return (not rr.ok) and classify(ops, rr)[0] == key0
         # keep the header (everything up to and including init), shrink the step/save tail
         hdr = next((i for i, o in enumerate(c) if o.startswith("init")), 0) + 1
-        small = core.shrink_ops(c, fails, keep_prefix=hdr) if len(c) > hdr + 1 else c
+        # (a convergence failure is a statement about the whole budget: not shrunk)
+        small = core.shrink_ops(c, fails, keep_prefix=hdr) if len(c) > hdr + 1 and "not-converged" not in key0 else c
         rs = run_case(ctx, hcmd, dcmd, small, timeout=60)
         if rs.ok:
             small, rs = c, r
@@ -378,7 +379,8 @@ def run(ctx):
     nls, maxls, nconv = (160, 25, 12) if ctx.quick else (1500, 80, 150)
     lcases = [c for c in corpus if case_info(c)["opt"] not in ("sd", "adam", "rprop")]
     lcases += [gen_ls_case(r, maxls) for _ in range(nls)]
-    lcases += [gen_ls_case(r, 60 if ctx.quick else 200, converge=True) for _ in range(nconv)]
+    # generous budget: CG with the backtracking line search needs > 100 steps on the worse-conditioned 5-d instances
+    lcases += [gen_ls_case(r, 400 if ctx.quick else 1000, converge=True) for _ in range(nconv)]
     record(ctx, lcases)
     for c in lcases:
         for o in c:
